@@ -48,6 +48,7 @@ type loopInfo struct {
 	kids    []*loopInfo
 	ordinal int
 	minPos  token.Pos
+	writes  *loopWrites
 }
 
 type Gen struct {
@@ -75,6 +76,7 @@ type Gen struct {
 	assumptions map[string]bool
 	curBlock *ssa.BasicBlock
 	oldFrontier string
+	storeFresh  bool // the store being translated writes an object allocated by this function
 	inlineDepth int
 	entryPrefix int
 }
@@ -532,6 +534,28 @@ func (g *Gen) storeAt(st *State, ref string, t types.Type, tag string, val strin
 	}
 	cur := g.sc.lookup(st, tag)
 	st.mem[tag] = g.sc.define("m_"+tag, g.sc.tagSort[tag], fmt.Sprintf("(store %s %s %s)", cur, ref, val))
+	if g.storeFresh {
+		g.sc.oldEq[st.mem[tag]] = g.sc.oldBase(cur)
+	}
+}
+
+// isFreshRoot: the address points into an object allocated by this function.
+func (g *Gen) isFreshRoot(v ssa.Value) bool {
+	switch x := v.(type) {
+	case *ssa.FieldAddr:
+		return g.isFreshRoot(x.X)
+	case *ssa.IndexAddr:
+		return g.isFreshRoot(x.X)
+	case *ssa.Alloc, *ssa.MakeSlice, *ssa.MakeMap:
+		return true
+	case *ssa.Slice:
+		return g.isFreshRoot(x.X)
+	case *ssa.Call:
+		if b, ok := x.Call.Value.(*ssa.Builtin); ok && b.Name() == "append" {
+			return true
+		}
+	}
+	return false
 }
 
 func (g *Gen) havocTag(st *State, tag string) {
@@ -942,11 +966,27 @@ func (g *Gen) processBlock(b *ssa.BasicBlock, entrySt *State) {
 // loop all go to objects that are identifiable at the loop head (or are allocated inside
 // the loop), a frame fact keeps the cells of all other pre-existing objects.
 type tagWrites struct {
-	roots   map[string]bool // terms (rb ...) of written objects known at the loop head
-	unknown bool
+	roots    map[string]bool // terms (rb ...) of written objects known at the loop head
+	unknown  bool
+	oldRoots bool // some written object may be older than the function entry
+}
+
+type loopWrites struct {
+	all    bool
+	tags   map[string]*tagWrites
+	locals map[*ssa.Alloc]bool
 }
 
 func (g *Gen) havocLoop(li *loopInfo, st *State) {
+	lw := g.analyseLoopWrites(li)
+	all, tags, locals := lw.all, lw.tags, lw.locals
+	g.applyLoopHavoc(li, st, all, tags, locals)
+}
+
+func (g *Gen) analyseLoopWrites(li *loopInfo) *loopWrites {
+	if li.writes != nil {
+		return li.writes
+	}
 	all := false
 	tags := map[string]*tagWrites{}
 	touch := func(tag string) *tagWrites {
@@ -1013,6 +1053,7 @@ func (g *Gen) havocLoop(li *loopInfo, st *State) {
 		}
 		return "?"
 	}
+	curFresh := false
 	note := func(tagset map[string]bool, root string) {
 		for t := range tagset {
 			w := touch(t)
@@ -1022,6 +1063,9 @@ func (g *Gen) havocLoop(li *loopInfo, st *State) {
 			case "":
 			default:
 				w.roots[root] = true
+				if !curFresh {
+					w.oldRoots = true
+				}
 			}
 		}
 	}
@@ -1035,7 +1079,9 @@ func (g *Gen) havocLoop(li *loopInfo, st *State) {
 				}
 				ts := map[string]bool{}
 				g.collectStoreTags(x.Addr, x.Val.Type(), ts)
+				curFresh = g.isFreshRoot(x.Addr)
 				note(ts, rootOf(x.Addr))
+				curFresh = false
 			case *ssa.MapUpdate:
 				mt := x.Map.Type().Underlying().(*types.Map)
 				d, v, l := g.mapTags(mt)
@@ -1047,7 +1093,9 @@ func (g *Gen) havocLoop(li *loopInfo, st *State) {
 				} else if _, isMake := x.Map.(*ssa.MakeMap); isMake {
 					root = ""
 				}
+				curFresh = g.isFreshRoot(x.Map)
 				note(map[string]bool{d: true, v: true, l: true}, root)
+				curFresh = false
 			case *ssa.Alloc, *ssa.MakeMap, *ssa.MakeSlice, *ssa.MakeClosure, *ssa.MakeInterface:
 				touch("!frontier")
 				if a, ok := x.(*ssa.Alloc); ok {
@@ -1091,6 +1139,11 @@ func (g *Gen) havocLoop(li *loopInfo, st *State) {
 			}
 		}
 	}
+	li.writes = &loopWrites{all: all, tags: tags, locals: locals}
+	return li.writes
+}
+
+func (g *Gen) applyLoopHavoc(li *loopInfo, st *State, all bool, tags map[string]*tagWrites, locals map[*ssa.Alloc]bool) {
 	entryFrontier := g.frontier(st)
 	if all {
 		g.havocAll(st)
@@ -1130,6 +1183,9 @@ func (g *Gen) havocLoop(li *loopInfo, st *State) {
 			}
 			nw := st.mem[t]
 			g.sc.emit("(assert (forall ((r Ref)) (! (=> %s (= (select %s r) (select %s r))) :pattern ((select %s r)))))", cond, nw, old, nw)
+			if !w.oldRoots {
+				g.sc.oldEq[nw] = g.sc.oldBase(old)
+			}
 		}
 	}
 	for a := range locals {
@@ -1248,6 +1304,31 @@ func (g *Gen) invariantTerms(li *loopInfo, st *State, phiVals map[*ssa.Phi]strin
 						}
 					}
 				}
+			}
+		}
+	}
+	if lc := g.loopContract(li); lc != nil && lc.PreservesOld {
+		// frame invariant: every heap cell of an object older than the function entry keeps its entry value
+		lw := g.analyseLoopWrites(li)
+		var tl []string
+		for t := range lw.tags {
+			tl = append(tl, t)
+		}
+		sort.Strings(tl)
+		for _, t := range tl {
+			srt, ok := g.sc.tagSort[t]
+			if !ok || !strings.HasPrefix(srt, "(Array Ref ") {
+				continue
+			}
+			cur := g.sc.lookup(st, t)
+			was := g.sc.lookup(g.entry, t)
+			if cur == was {
+				continue
+			}
+			terms = append(terms, fmt.Sprintf("(forall ((r Ref)) (! (=> (< (rb r) %s) (= (select %s r) (select %s r))) :pattern ((select %s r))))", g.oldFrontier, cur, was, cur))
+			clauses = append(clauses, &Clause{Kind: "invariant", Label: "preserves-old:" + t, Text: "objects older than the function entry are unchanged in " + t})
+			if phiVals == nil { // assumed at the loop head
+				g.sc.oldEq[cur] = g.sc.oldBase(was)
 			}
 		}
 	}
